@@ -80,6 +80,32 @@ _real_isinstance = shims._real_isinstance
 
 # ---------------------------------------------------------------------------------------------
 # local shims (additive; handed to the engine through Harness.shim_extra)
+_NIB = {}     # z3 ast id of a digit character produced by _nib_char -> (char expr, nibble it renders)
+
+
+def _nib_char(n):
+    """code point of the lowercase hex digit of nibble n (no fork).  The nibble is remembered, so that reading
+    the very same character back (_hexval) yields n directly: hexdigit_value(hexdigit_char(n)) == n for
+    n in 0..15 (checked below for all 16 values); purely a solver-load optimisation."""
+    c = shims._nibble_char(n)
+    if type(c) is SymInt:
+        _NIB[c.e.get_id()] = (c.e, n)
+    return c
+
+
+assert all(_real_int(chr(shims._nibble_char(n)), 16) == n for n in range(16))
+
+
+def hexlify_c14(b):
+    if not _real_isinstance(b, SymBytes):
+        return _binascii.hexlify(b)
+    out = []
+    for v in b.lst:
+        out.append(_nib_char((v >> 4) & 0xF))
+        out.append(_nib_char(v & 0xF))
+    return SymBytes.make(out)
+
+
 def hex_c14(v):
     """hex() of a symbolic integer: faithful rendering; forks on the sign and on the digit count"""
     if type(v) is SymBool:
@@ -96,7 +122,7 @@ def hex_c14(v):
     while a >= (1 << (4 * n)):
         n += 1
     for i in range(n - 1, -1, -1):
-        out.append(shims._nibble_char((a >> (4 * i)) & 0xF))
+        out.append(_nib_char((a >> (4 * i)) & 0xF))
     return SymStr.make(out)
 
 
@@ -107,6 +133,9 @@ def _hexval(c):
         if ch in "0123456789abcdefABCDEF":
             return _real_int(ch, 16), True
         return 0, False
+    hit = _NIB.get(c.e.get_id())
+    if hit is not None and hit[0].eq(c.e):
+        return hit[1], True
     isd = sym_and(c >= 48, c <= 57)
     isl = sym_and(c >= 97, c <= 102)
     isu = sym_and(c >= 65, c <= 70)
@@ -173,9 +202,9 @@ def unhexlify_c14(s):
 
 class binascii_c14:
     Error = _binascii.Error
-    hexlify = staticmethod(shims.sym_hexlify)
+    hexlify = staticmethod(hexlify_c14)
     unhexlify = staticmethod(unhexlify_c14)
-    b2a_hex = staticmethod(shims.sym_hexlify)
+    b2a_hex = staticmethod(hexlify_c14)
     a2b_hex = staticmethod(unhexlify_c14)
     crc32 = staticmethod(_binascii.crc32)
 
@@ -267,34 +296,41 @@ def _cls(v, D):
     return nd1 + D * ite(neg, 1, 0)
 
 
-class FieldMaker:
-    """declares the numeric fields of one harness.  hexint(): a field rendered by hex().  The fields whose
-    index is in `free` are unconstrained (all 2D classes); the class of every other hex field is tied to the
-    class of field free[0] by the diagonal assumption (finish())."""
+def _cls_interval(c, D):
+    neg, nd = divmod(c, D)
+    nd += 1
+    lo = 0 if nd == 1 else 1 << (4 * (nd - 1))
+    hi = (1 << (4 * nd)) - 1
+    if neg:
+        return -hi, -max(lo, 1)
+    return lo, hi
 
-    def __init__(self, mk, D, ks, free):
+
+class FieldMaker:
+    """declares the numeric fields of one harness.  hexint(): a field rendered by hex().  A symbolic input
+    `class` (0..2D-1, enumerated through the solver = one path per value) selects the diagonal element:
+    hex field i ranges over ALL values of (sign, digit count) class (class + k_i) mod 2D.  Fields whose index
+    is listed in `free` range over all classes at once (hex() then forks on them)."""
+
+    def __init__(self, mk, D, ks, free, cls_range=None):
+        _NIB.clear()
         self.mk = mk
         self.D = D
         self.ks = ks
-        self.free = list(free) or [0]
-        self.fields = []
+        self.free = set(free)
+        self.n = 0
         self.M = (1 << (4 * D)) - 1
+        lo, hi = cls_range if cls_range else (0, 2 * D - 1)
+        self.c0 = int(mk.int("class", lo, hi))      # proxy: forks over its feasible values
 
     def hexint(self, name):
-        v = self.mk.int(name, -self.M, self.M)
-        self.fields.append(v)
-        return v
-
-    def finish(self):
-        if not self.fields:
-            return
-        m = self.free[0] % len(self.fields)
-        master = _cls(self.fields[m], self.D)
-        for i, v in enumerate(self.fields):
-            if i == m or i in self.free:
-                continue
-            k = self.ks[i % len(self.ks)] if self.ks else 0
-            self.mk.assume(_cls(v, self.D) == (master + k) % (2 * self.D))
+        i = self.n
+        self.n += 1
+        if i in self.free:
+            return self.mk.int(name, -self.M, self.M)
+        k = self.ks[i % len(self.ks)] if self.ks else 0
+        lo, hi = _cls_interval((self.c0 + k) % (2 * self.D), self.D)
+        return self.mk.int(name, lo, hi)
 
     def uint(self, name):
         return self.mk.int(name, 0, self.M)
@@ -410,6 +446,8 @@ def declare(shape, fm, p=""):
         v[f"sym{i}.size"] = fm.uint(f"{p}sym{i}.size")
         if shape.get("symids"):
             v[f"sym{i}.id"] = fm.small(f"{p}sym{i}.id", 0, nsym + 1)
+            for j in range(i):      # premise of ObjectFile.add_symbol: ids are unique
+                fm.mk.assume(v[f"sym{i}.id"] != v[f"sym{j}.id"])
     for i, r in enumerate(shape.get("relocs", [])):
         v[f"rel{i}.offset"] = fm.hexint(f"{p}rel{i}.offset")
         v[f"rel{i}.addend"] = fm.hexint(f"{p}rel{i}.addend")
@@ -530,20 +568,18 @@ class _Base(Harness):
 class ObjectHarness(_Base):
     """one object file: ObjectFile.save -> text -> ObjectFile.load"""
 
-    def __init__(self, shape, D=16, ks=(), free=(0,), seed=0):
+    def __init__(self, shape, D=16, ks=(), free=(), seed=0, cls_range=None):
         self.shape_id = shape
         self.shape = shape_by_id(shape, seed)
         self.ks = list(ks)
         self.free = list(free)
+        self.cls_range = cls_range
         self._setup(D)
-        self.name = f"objectfile.roundtrip[{shape};D={D};k={_kname(self.ks)};free={_kname(self.free)}]"
-        self.params = dict(shape=shape, D=D, ks=self.ks, free=self.free, seed=seed)
+        self.name = f"objectfile.roundtrip[{shape};D={D};k={_kname(self.ks)};free={_kname(self.free) if self.free else '-'}]"
+        self.params = dict(shape=shape, D=D, ks=self.ks, free=self.free, seed=seed, cls_range=cls_range)
 
     def inputs(self, mk):
-        fm = FieldMaker(mk, self.D, self.ks, self.free)
-        v = declare(self.shape, fm)
-        fm.finish()
-        return v
+        return declare(self.shape, FieldMaker(mk, self.D, self.ks, self.free, self.cls_range))
 
     def run(self, v):
         from ppci.binutils.objectfile import ObjectFile
@@ -553,7 +589,7 @@ class ObjectHarness(_Base):
         obj.save(f)
         f.seek(0)
         obj2 = ObjectFile.load(f)
-        return dict(orig=before, loaded=snap_object(obj2), eq=bool(obj2 == obj), eq_rev=bool(obj == obj2))
+        return dict(orig=before, loaded=snap_object(obj2), eq=bool(obj2 == obj))
 
     def post(self, v, out):
         if not out.ok:
@@ -561,14 +597,14 @@ class ObjectHarness(_Base):
         o = out.value
         res = {"no-exception": True}
         res.update(diff(o["orig"], o["loaded"]))
-        res["ObjectFile.__eq__"] = o["eq"] is True and o["eq_rev"] is True
+        res["ObjectFile.__eq__"] = o["eq"] is True
         return res
 
 
 class ArchiveHarness(_Base):
     """several objects: Archive.save -> text -> Archive.load"""
 
-    def __init__(self, archive, D=16, ks=(), free=(0,)):
+    def __init__(self, archive, D=16, ks=(), free=()):
         self.archive = archive
         self.shapes = [SHAPES[s] for s in ARCHIVES[archive]]
         self.ks = list(ks)
@@ -579,9 +615,7 @@ class ArchiveHarness(_Base):
 
     def inputs(self, mk):
         fm = FieldMaker(mk, self.D, self.ks, self.free)
-        v = {f"o{i}": declare(s, fm, f"o{i}.") for i, s in enumerate(self.shapes)}
-        fm.finish()
-        return v
+        return {f"o{i}": declare(s, fm, f"o{i}.") for i, s in enumerate(self.shapes)}
 
     def run(self, v):
         from ppci.binutils.archive import Archive, archive, get_archive
@@ -667,6 +701,117 @@ class DataTextHarness(_Base):
                 "returns-bytes": out.value["is_bytes"]}
 
 
+LINK_LAYOUT = """
+MEMORY flash LOCATION=0x1000 SIZE=0x1000 { SECTION(code) }
+MEMORY ram LOCATION=0x20000 SIZE=0x100 { SECTION(data) }
+"""
+# (lo, hi) per symbolic field and variant: each inside one (sign, digit-count) class
+LINK_RANGES = {
+    0: dict(main=(0x0, 0xF), lbl=(0x1, 0xB), ext=(0x0, 0x3), addend=(-0xFF, -0x10), addr=(0x10000000, 0xFFFFFFFF), addend2=(0x0, 0xF)),
+    1: dict(main=(0x0, 0xB), lbl=(0x0, 0xC), ext=(0x1, 0x4), addend=(-0xF, -0x1), addr=(-0xFFF, -0x100), addend2=(-0xFFFFF, -0x10000)),
+    2: dict(main=(0x4, 0xC), lbl=(0x0, 0x8), ext=(0x0, 0x4), addend=(0x100, 0xFFF), addr=(0x0, 0xF), addend2=(0x1000000000, 0xFFFFFFFFFF)),
+}
+
+
+class LinkHarness(_Base):
+    """two x86_64 objects (symbolic code/data bytes, symbol values, addends incl. negative ones, section
+    addresses) are linked with a layout; the same link is done with the objects after save/load (mode
+    'objects'), resp. with the second object pulled out of a saved/loaded archive (mode 'library').
+    The two linker outputs must be identical in every field and every image byte."""
+    shim_modules = SHIM_MODULES + ("ppci.binutils.linker", "ppci.utils.bitfun", "ppci.arch.token", "ppci.arch.encoding",
+                                   "ppci.arch.data_instructions", "ppci.arch.x86_64.instructions")
+
+    def __init__(self, mode="objects", variant=0, partial=False):
+        self.mode = mode
+        self.variant = variant
+        self.partial = partial
+        self._setup(16)
+        self.name = f"link.after.roundtrip[{mode};variant={variant};partial={int(partial)}]"
+        self.params = dict(mode=mode, variant=variant, partial=partial)
+
+    def inputs(self, mk):
+        _NIB.clear()
+        R = LINK_RANGES[self.variant]
+        v = {}
+        for o, secs in (("o1", (("code", 12), ("data", 3))), ("o2", (("code", 5), ("data", 4)))):
+            for sn, n in secs:
+                v[f"{o}.{sn}.data"] = [mk.int(f"{o}.{sn}.data[{i}]", 0, 255) for i in range(n)]
+                v[f"{o}.{sn}.address"] = mk.int(f"{o}.{sn}.address", *R["addr"])
+        for k in ("main", "lbl", "ext", "addend", "addend2"):
+            v[k] = mk.int(k, *R[k])
+        v["size"] = mk.int("size", 0, (1 << 64) - 1)
+        return v
+
+    def _objects(self, v):
+        from ppci.binutils.objectfile import ObjectFile, RelocationEntry
+        from ppci.api import get_arch
+        arch = get_arch("x86_64")
+        o1 = ObjectFile(arch)
+        o2 = ObjectFile(arch)
+        for o, name, align in ((o1, "o1", {"code": 4, "data": 1}), (o2, "o2", {"code": 8, "data": 4})):
+            for sn in ("code", "data"):
+                s = o.create_section(sn)
+                s.alignment = align[sn]
+                s.address = v[f"{name}.{sn}.address"]
+                s.add_data(_mkbytes(v[f"{name}.{sn}.data"]))
+        o1.add_symbol(0, "main", "global", v["main"], "code", "func", v["size"])
+        o1.add_symbol(1, "ext", "global", None, None, "object", 0)
+        o1.add_symbol(2, "lbl", "local", v["lbl"], "code", "object", 0)
+        o1.add_relocation(RelocationEntry("rel32", 1, "code", 4, v["addend"]))
+        o1.add_relocation(RelocationEntry("absaddr32", 2, "code", 8, v["addend2"]))
+        o1.entry_symbol_id = 0
+        o2.add_symbol(0, "ext", "global", v["ext"], "data", "object", v["size"])
+        o2.add_symbol(1, "main", "global", None, None, "func", 0)
+        o2.add_symbol(2, "lbl", "local", v["lbl"], "data", "object", 0)
+        o2.add_relocation(RelocationEntry("absaddr32", 1, "data", 0, v["addend"]))
+        o2.add_relocation(RelocationEntry("rel32", 2, "code", 1, v["addend"]))
+        return o1, o2
+
+    def _link(self, objs, libs):
+        from ppci.api import link
+        from ppci.binutils.layout import Layout
+        if self.partial:
+            out = link(objs + [o for lib in libs for o in lib], partial_link=True)
+        else:
+            out = link(objs, layout=Layout.load(io.StringIO(LINK_LAYOUT)), libraries=libs or None)
+        snap = snap_object(out)
+        snap["image_bytes"] = [list(im.data) for im in out.images]
+        return snap
+
+    def run(self, v):
+        from ppci.binutils.objectfile import ObjectFile
+        from ppci.binutils.archive import Archive
+        o1, o2 = self._objects(v)
+
+        def rt(o):
+            f = MemFile()
+            o.save(f)
+            f.seek(0)
+            return ObjectFile.load(f)
+
+        if self.mode == "objects":
+            ref = self._link([o1, o2], [])
+            got = self._link([rt(o1), rt(o2)], [])
+        else:
+            f = MemFile()
+            Archive([o2]).save(f)
+            f.seek(0)
+            ref = self._link([o1], [Archive([o2])])
+            got = self._link([rt(o1)], [Archive.load(f)])
+        return dict(ref=ref, got=got)
+
+    def post(self, v, out):
+        if not out.ok:
+            return {"no-exception": False}
+        res = {"no-exception": True}
+        res.update(diff(out.value["ref"], out.value["got"], "linked"))
+        return res
+
+
+def mk_link(**kw):
+    return LinkHarness(**kw)
+
+
 # ---------------------------------------------------------------------------------------------
 def mk_obj(**kw):
     return ObjectHarness(**kw)
@@ -713,14 +858,18 @@ def jobs(tier, seed):
     for sid, sh in shapes.items():
         nf = _nhex(sh)
         for ks in _diagonals(rnd, nf, D, ndiag if nf > 1 else 1):
-            js.append(("mk_obj", dict(shape=sid, D=D, ks=ks, free=[0], seed=seed)))
+            js.append(("mk_obj", dict(shape=sid, D=D, ks=ks, free=[], seed=seed)))
     for aid in ARCHIVES:
-        js.append(("mk_ar", dict(archive=aid, D=D, ks=[0], free=[0])))
-    js.append(("mk_ar", dict(archive="ar3", D=D, ks=[0] + [rnd.randrange(2 * D) for _ in range(20)], free=[0])))
+        js.append(("mk_ar", dict(archive=aid, D=D, ks=[0], free=[])))
+    js.append(("mk_ar", dict(archive="ar3", D=D, ks=[0] + [rnd.randrange(2 * D) for _ in range(20)], free=[])))
+    for mode in ("objects", "library"):
+        for variant in ((0, 1) if tier == "quick" else (0, 1, 2)):
+            js.append(("mk_link", dict(mode=mode, variant=variant, partial=False)))
+    js.append(("mk_link", dict(mode="objects", variant=2, partial=True)))
     if tier == "thorough":
         # related pairs, both free: full (sign, digit-count) product of the pair (D=16 keeps it at 1024 paths)
         for sid, pair in (("sec1", [0, 1]), ("symid", [0, 2]), ("typical", [5, 6])):
-            js.append(("mk_obj", dict(shape=sid, D=16, ks=[0], free=pair, seed=seed)))
+            js.append(("mk_obj", dict(shape=sid, D=16, ks=[0, 3, 17, 8, 30, 21, 12], free=pair, seed=seed, cls_range=[5, 5])))
     only = os.environ.get("VERIF_ONLY")
     if only:
         js = [j for j in js if only in repr(j)]
